@@ -219,7 +219,17 @@ def r3_grow(ck, F, R="C08-R3"):
     if ok:
         a = ei.arg_exprs(rec[0][0])
         ok = is_arg(a[0], "self") and is_arg(a[1], "key") and is_arg(a[2], "data")
-    ck.ob(R, "retry-same-entry", ok, "after growing, the same (key, data) is inserted again", ei)
+    how = "recursive call with the same (key, data)"
+    if not ok and not rec and len(fs) == 1 and len(rc) == 1:
+        # loop form: `while !self.fits(key, data) { self.reallocate_buffer() }` then the store — after
+        # growing, control can only continue through the same fits(self, key, data) test
+        fbb, rbb = fs[0][0].bb, rc[0][0].bb
+        same_loop = any(fbb in blks and rbb in blks for _, blks in ei.loops())
+        rets = set(ei.return_blocks())
+        escapes = rets & reachable_without(ei, banned_blocks={fbb}, start=rbb) if rbb != fbb else rets
+        ok = same_loop and not escapes
+        how = "the growth is inside the loop that re-tests fits(self, key, data); no path from it reaches the end of insert without that test"
+    ck.ob(R, "retry-same-entry", ok, "after growing, the same (key, data) is inserted again — " + how, ei)
     for b, s, rv in aggregates(F, ent):
         e = agg_field_expr(b, s, rv, "buffer")
         ck.ob(R, "initial-buffer", b.path == A("entries_with_cap") and is_call(e, A("aligned_new")) and is_arg(e.strip().a[0], "capacity") and const_val(agg_field_expr(b, s, rv, "entries_len")) == 0 and const_val(agg_field_expr(b, s, rv, "bounds_count")) == 0,
